@@ -280,7 +280,8 @@ def _strategy(tier):
 
   @st.composite
   def cases(draw):
-    tasks = draw(st.lists(task, min_size=1, max_size=5))
+    ntasks = draw(st.sampled_from([1, 2, 2, 2, 3, 3, 4, 5]))
+    tasks = draw(st.lists(task, min_size=ntasks, max_size=ntasks))
     timers = draw(st.lists(timer, max_size=3))
     items = [["task", i] for i in range(len(tasks))] + [["timer", i] for i in range(len(timers))]
     order = draw(st.permutations(items)) if len(items) > 1 else items
